@@ -82,7 +82,8 @@ mutual
 theorem wf_erase : ∀ t : Ty, wf (eraseT t) = wf t
   | .simple _ _ => rfl
   | .named [] => rfl
-  | .named (_ :: _) => rfl
+  | .named [_] => rfl
+  | .named (_ :: _ :: _) => rfl
   | .array _ _ item => by simp only [eraseT, wf, wf_erase item]
   | .struct _ _ fs => by simp only [eraseT, wf, wfs_erase fs]
 theorem wfs_erase : ∀ fs : Fields, wfs (eraseFs fs) = wfs fs
